@@ -149,7 +149,8 @@ def make_recording(folder, spec):
             raise tlc.TLCError("could not draw data with separable calibrated values")
     folder = Path(folder)
     stem = spec.get("stem") or f"r{spec['seed']}_{spec['kind'].replace('.', '')}"
-    b = metagen.write_recording(folder, stem, text, data, suffix=suffix)
+    # "uuid": the dataset id sits in the file names (rec.ap.<uuid>.bin / .meta / .cbin / .ch), as on data servers
+    b = metagen.write_recording(folder, stem, text, data, suffix=suffix + ("." + spec["uuid"] if spec.get("uuid") else ""))
     return {"bin": b, "data": data, "factors": factors, "classes": classes, "gen": gen, "sites": [list(s) for s in sites],
             "nc": nc, "nsync": nsync, "ns": ns, "spec": spec}
 
@@ -695,7 +696,11 @@ def history_axis(ctx, by_n, maxn, seed, quick):
     plan = [("p0", {"kind": "3B2", "stream": "ap", "sites": unsorted_sites("3B2", nd), "gains": g(nd, 3, 5)}),
             ("p0", {"kind": "3B2", "stream": "lf", "sites": unsorted_sites("3B2", nd - 1), "gains": g(nd - 1, 5, 3)}),
             ("p0", {"kind": "nidq", "nidq": (1, 1, 1, 1)}),
-            ("p1", {"kind": "NP2.4", "stream": "ap", "sites": unsorted_sites("NP2.4", nd - 2)})]
+            ("p1", {"kind": "NP2.4", "stream": "ap", "sites": unsorted_sites("NP2.4", nd - 2)}),
+            # next to the plain-named 3B2 recording of p0: another probe's recording under the same base name, with its dataset
+            # id in the names of all its files (its companions are its own, not the plain-named ones)
+            ("p0", {"kind": "NP2.4", "stream": "ap", "sites": unsorted_sites("NP2.4", nd - 1), "range_max": 0.62, "maxint": 2048,
+                    "uuid": "4f6d1c2e-8a3b-4b7e-9c51-0d2e7f3a9b10"})]
     recs = []
     for i, (sub, base) in enumerate(plan):
         spec = dict(base, ns=rnd.randint(3, maxn), seed=5000 + i + 97 * seed, stem="rec")
